@@ -17,6 +17,7 @@ REVIEWED_UNWRAPS = {
 
 def run(db, chk):
     dedup_key_rule(db, chk)
+    partial_name_rule(db, chk)
     fns = [f for f in db.by_crate["gix_refspec"] if "::match_group::" in f.name and f.kind != "promoted"]
     chk.floor("match_group functions", len(fns), 20)
     nranges = 0
@@ -73,6 +74,41 @@ def run(db, chk):
                 suffix = f.name.split("match_group::")[-1]
                 chk.ob("unwrap-reviewed", "%s %s@%d" % (suffix, c.name.split("::")[-1], c.line), suffix in REVIEWED_UNWRAPS, REVIEWED_UNWRAPS.get(suffix, "not on the reviewed list"), c.where(), key="unwrap|%s" % suffix)
     chk.set("explicit_unwraps", n)
+
+
+def partial_name_rule(db, chk):
+    """a partial name (`main`, `origin`) is tried against ALL of git's expansion rules (refs/<n>, refs/tags/<n>, refs/heads/<n>, refs/remotes/<n>,
+    refs/remotes/<n>/HEAD): in Needle::matches the PartialName arm reaches expand_partial_name without any test on the item or the name in between -
+    the only switch deciding whether the call happens is the one on the needle's own variant.  (A shortcut like `item ends with name` is wrong
+    for the rule that appends /HEAD.)  And expand_partial_name itself tries at least those six forms."""
+    from gx.flow import control_switches
+    f = db.one(r"^gix_refspec::match_group::util::Needle::<'a>::matches$")
+    fl = Flow(f)
+    cs = f.calls_to(r"spec::expand_partial_name$")
+    chk.floor("Needle::matches: expand_partial_name call", len(cs), 1)
+    for c in cs:
+        bad = []
+        for b in control_switches(f, c.block):
+            t = f.term(b)
+            ds = [rv for b2, si, pl, rv, ln, mc in f.assigns() if b2 == b and "p" in t[1] and pl == [t[1]["p"][0]]]
+            is_variant = bool(ds) and ds[-1][0] == "discr" and ds[-1][1][0] == 1
+            if not is_variant:
+                bad.append(t[5] if len(t) > 5 else "?")
+        chk.ob("partial-name-tries-every-expansion", "Needle::matches expand_partial_name@%d" % c.line, not bad,
+               "whether the expansion rules are consulted depends on a test at line(s) %s besides the needle's variant: names that only match through a rule that appends (refs/remotes/<name>/HEAD) are dropped" % bad,
+               c.where(), key="partial-name|matches")
+    e = db.one(r"^gix_refspec::spec::expand_partial_name$")
+    forms = set()
+    for c in e.calls():
+        for a in c.args:
+            if "bytes" in a:
+                forms.add(bytes.fromhex(a["bytes"]))
+    pfl = Flow(e)
+    consts = {r[1] for c in e.calls() for a in c.args if "p" in a for r in pfl.roots(a, stop_named=False) if r[0] == "const" and isinstance(r[1], (bytes, str))}
+    txt = b" ".join(x if isinstance(x, bytes) else x.encode() for x in (forms | consts))
+    need = [b"refs/", b"refs/tags/", b"refs/heads/", b"refs/remotes/", b"HEAD"]
+    chk.ob("partial-name-tries-every-expansion", "expand_partial_name prefixes", all(n in txt for n in need),
+           "git's ref_rev_parse_rules prefixes/suffix missing: %s" % [n.decode() for n in need if n not in txt], "%s:%d" % (e.file, e.line), key="partial-name|rules")
 
 
 def dedup_key_rule(db, chk):
